@@ -7,6 +7,8 @@ def run(ctx):
     invariance.rule_component_extraction(ctx)
     invariance.rule_component_traversal(ctx)
     components.rule_component_cursor(ctx)
+    from . import layout
+    layout.rule_selector_above_encoding(ctx)  # a search never runs on a solver that was not given its component's encoding
     provenance.rule_argument_provenance(ctx)
     provenance.rule_literal_provenance(ctx)
     invariance.rule_attack_multiplicity(ctx)
